@@ -1872,3 +1872,34 @@ M("s6-quiet-ilog2-clamped", "C05", "quiet", "src/compile.rs",
                                 let s = index[mux_layer];
                                 let mut i = 0;
                                 while i < collection.len() {""", "behaviour-preserving: a clamped logarithm that is computed but not used")
+
+# ---------------------------------------------------------------- C01 V12 (truth tables of the primitives)
+M("v12-mux-selects-other", "C01", "fire V12", "src/circuit.rs",
+  """        let swap = self.push_and(x0_xor_x1, nots);
+        self.push_xor(x0, swap)""",
+  """        let swap = self.push_and(x0_xor_x1, nots);
+        self.push_xor(x1, swap)""", "push_mux(s, a, b) returns b when s is set")
+M("v12-adder-carry-and", "C01", "fire V12", "src/circuit.rs",
+  """        let carry = self.push_or(wire_v, wire_w);
+        (wire_s, carry)""",
+  """        let carry = self.push_and(wire_v, wire_w);
+        (wire_s, carry)""", "full adder never carries")
+M("v12-quiet-adder-carry-xor", "C01", "quiet", "src/circuit.rs",
+  """        let carry = self.push_or(wire_v, wire_w);
+        (wire_s, carry)""",
+  """        let carry = self.push_xor(wire_v, wire_w);
+        (wire_s, carry)""", "behaviour-preserving: v and w are never both set, so xor is as good as or")
+M("v12-condswap-outputs-exchanged", "C01", "fire V12", "src/circuit.rs",
+  """        let x_swapped = self.push_xor(x, swap);
+        let y_swapped = self.push_xor(y, swap);
+        (x_swapped, y_swapped)""",
+  """        let x_swapped = self.push_xor(x, swap);
+        let y_swapped = self.push_xor(y, swap);
+        (y_swapped, x_swapped)""", "conditional swap swaps when the selector is clear")
+M("v12-eq-is-xor", "C01", "fire V12", "src/circuit.rs",
+  """        let xor = self.push_xor(x, y);
+        self.push_xor(xor, 1)
+    }""",
+  """        let xor = self.push_xor(x, y);
+        self.push_xor(xor, 0)
+    }""", "push_eq computes inequality")
